@@ -15,9 +15,12 @@ for log in sys.argv[2:3]:
         if len(p) >= 2:
             sweep[p[0].replace("/", "-")] = (p[1], [x.replace("rule=", "") for x in p[2:]])
 n = 0
-for d in sorted(glob.glob(os.path.join(HERE, "seeded_raw", "*", "m*"))):
-    pid = os.path.basename(os.path.dirname(d)); name = "%s-%s" % (pid, os.path.basename(d))
-    if name not in ver:
+RAW = os.environ.get("RAW", "seeded_raw")
+SUF = os.environ.get("SUFFIX", "")
+for d in sorted(glob.glob(os.path.join(HERE, RAW, "*", "m*"))):
+    pid = os.path.basename(os.path.dirname(d)); name = "%s-%s%s" % (pid, SUF, os.path.basename(d))
+    vname = "%s-%s" % (pid, os.path.basename(d))
+    if vname not in ver:
         print("skip (not confirmed):", name); continue
     out = os.path.join(HERE, "seeded", name)
     os.makedirs(out, exist_ok=True)
@@ -35,9 +38,10 @@ for d in sorted(glob.glob(os.path.join(HERE, "seeded_raw", "*", "m*"))):
                          "steps": ["git apply patch.diff", "cargo test --offline --no-fail-fast --workspace  -> all pass",
                                    "cp demo.rs tests/demo.rs && cargo test --offline --test demo  -> FAILS with the patch",
                                    "git checkout -- src && cargo test --offline --test demo  -> passes without the patch"],
-                         "applied": ver[name][0], "failing_demo_tests": ver[name][1][:300]},
-        "detected": sweep.get(name, ("not-run", []))[0] == "CAUGHT",
-        "detected_by_rules": sweep.get(name, ("", []))[1],
+                         "applied": ver[vname][0], "failing_demo_tests": ver[vname][1][:300]},
+        "detected": sweep.get(vname, ("not-run", []))[0] == "CAUGHT",
+        "detected_by_rules": sweep.get(vname, ("", []))[1],
+        "round": 2 if SUF else 1,
         "check_run": "bin/mutrun.sh seeded/%s/patch.diff %s" % (name, pid),
     }
     json.dump(meta, open(os.path.join(out, "meta.json"), "w"), indent=1)
